@@ -118,6 +118,120 @@ def push_plumbing(chk, fx, rule="push-plumbing"):
         chk.expect(len(uses) >= 2 and (pv in news or any(pv in n for n in news)), rule, f"apply_push_{ty}_impl", "new-element-value", f"PrimitiveValue::from({pv})", news, loc=C.fn_loc(h))
 
 
+def presence_gates(body, is_write, slot_re):
+    """[(write node, 'present'|'missing'|'any'|'conflict')]: under which presence of the target does each write site of `body` run?
+    Conditions come from enclosing `if` branches and from earlier `if c { return .. }` statements of the enclosing blocks; a condition
+    counts when it is `<slot>.is_some()` / `.is_none()` (possibly negated) or `if let Some(..) = <slot>..`."""
+    from .budget import Budget
+    out = []
+
+    def classify(c, sense):
+        c = H.peel(c)
+        if H.kind(c) == "un" and c[2] == "Not":
+            return classify(c[3], not sense)
+        if H.kind(c) == "mcall" and c[3] in ("is_some", "is_none") and re.search(slot_re, H.show(c[4], 6)):
+            pres = (c[3] == "is_some") == sense
+            return "present" if pres else "missing"
+        if H.kind(c) == "let" and re.search(slot_re, H.show(c[3] if H.is_node(c[3]) else c[-1], 6)):
+            pat = H.show_pat(c[2]) if isinstance(c[2], list) else ""
+            if "Some" in pat.split("(")[0]:
+                return "present" if sense else "missing"
+            if pat.endswith("None"):
+                return "missing" if sense else "present"
+        return None
+
+    def rec(n, conds):
+        k = H.kind(n)
+        if k is None:
+            if isinstance(n, list):
+                for x in n:
+                    rec(x, conds)
+            return
+        if is_write(n):
+            got = {c for c in conds if c}
+            out.append((n, "any" if not got else (got.pop() if len(got) == 1 else "conflict")))
+        if k == "if":
+            rec(n[2], conds)
+            rec(n[3], conds + [classify(n[2], True)])
+            if n[4] is not None:
+                rec(n[4], conds + [classify(n[2], False)])
+            return
+        if k == "block":
+            cs = list(conds)
+            for s in n[2]:
+                rec(s, cs)
+                e = s[2] if H.kind(s) in ("semi", "sexpr") else s
+                e = H.peel(e) if H.is_node(e) else e
+                if H.kind(e) == "if" and e[4] is None and Budget.diverges(e[3]):
+                    cs = cs + [classify(e[2], False)]
+            if n[3] is not None:
+                rec(n[3], cs)
+            return
+        if k == "closure":
+            return
+        for c in H.children(n):
+            rec(c, conds)
+
+    rec(body, [])
+    return out
+
+
+PRESENCE_WANT = {"Set": "any", "SetStr": "any", "SetIfMissing": "missing", "SetStrIfMissing": "missing", "Replace": "present", "ReplaceStr": "present"}
+
+
+def presence_semantics(chk, fx):
+    """Set* writes always, Set*IfMissing only when the attribute is absent, Replace* only when it is present -- in the in-memory object
+    (apply_leaf) and in the file meta table (apply_optional_string; required attributes are always present)."""
+    chk.rule("presence-semantics", "per action, the write runs under the documented presence of the target: Set/SetStr always, SetIfMissing/SetStrIfMissing only if absent, "
+             "Replace/ReplaceStr only if present -- InMemDicomObject::apply_leaf, FileMetaTable::apply_optional_string, ::apply_required_string; "
+             "FileMetaTable::apply dispatches each group-0002 tag to the field of the same name")
+    AA = "dicom_core::ops::AttributeAction"
+    targets = [
+        ("InMemDicomObject::apply_leaf", fx.method("dicom_object", IM, "apply_leaf"),
+         lambda n: H.kind(n) == "mcall" and n[3] == "apply_change_value_impl", r"self\.get\(tag\)|self\.entries\.get", PRESENCE_WANT),
+        ("FileMetaTable::apply_optional_string", fx.method("dicom_object", "dicom_object::meta::FileMetaTable", "apply_optional_string"),
+         lambda n: H.kind(n) == "assign" and "target_attribute" in H.show(n[2], 3) and "Some(" in H.show(n[3], 4), r"target_attribute", PRESENCE_WANT),
+        ("FileMetaTable::apply_required_string", fx.method("dicom_object", "dicom_object::meta::FileMetaTable", "apply_required_string"),
+         lambda n: H.kind(n) == "assign" and "target_attribute" in H.show(n[2], 3), r"target_attribute",
+         {"Set": "any", "SetStr": "any", "Replace": "any", "ReplaceStr": "any", "SetIfMissing": "never", "SetStrIfMissing": "never"}),
+    ]
+    n_inst = 0
+    for label, h, is_write, slot_re, want in targets:
+        ms = H.matches_over(h["body"], lambda t: t == AA)
+        if len(ms) != 1:
+            raise facts.MissingAnchor(f"{label}: match over AttributeAction")
+        got = {}
+        for p, g, b, ln in H.match_arms(ms[0]):
+            for alt in H.pat_alts(p):
+                hd = H.pat_head(alt)
+                if hd[0] != "variant":
+                    continue
+                v = hd[1].split("::")[-1]
+                if v not in want:
+                    continue
+                gates = {gt for _, gt in presence_gates(b, is_write, slot_re)}
+                got[v] = (("never" if not gates else gates.pop() if len(gates) == 1 else "conflict"), ln)
+        for v, w in want.items():
+            n_inst += 1
+            g, ln = got.get(v, ("no arm", 0))
+            chk.expect(g == w, "presence-semantics", label, v, f"writes: {w}", f"writes: {g}", loc=f"{h['loc']['f']}:{ln}")
+    # dispatch of FileMetaTable::apply: tags::<KEYWORD> -> self.<keyword in snake case> (TRANSFER_SYNTAX_UID -> transfer_syntax)
+    ha = fx.method("dicom_object", "dicom_object::meta::FileMetaTable", "apply")
+    ms = [m for m in H.walk(ha["body"]) if H.kind(m) == "match" and "Tag" in (m[3] or "") and len(H.match_arms(m)) >= 9]
+    if len(ms) != 1:
+        raise facts.MissingAnchor("FileMetaTable::apply: match over the tag")
+    for p, g, b, ln in H.match_arms(ms[0]):
+        sp = H.show_pat(p)
+        m = re.fullmatch(r"(?:.*::)?([A-Z][A-Z_]+)", sp)
+        if not m:
+            continue
+        fields = re.findall(r"self\.(\w+)", H.show(b, 6))
+        want_f = "transfer_syntax" if m.group(1) == "TRANSFER_SYNTAX_UID" else m.group(1).lower()
+        n_inst += 1
+        chk.expect(fields == [want_f], "presence-semantics", "FileMetaTable::apply", m.group(1), f"self.{want_f}", fields, loc=f"{ha['loc']['f']}:{ln}")
+    chk.floor("presence-semantics", "instances", n_inst, 27)
+
+
 def run(chk, tier):
     fx = facts.load("W")
     chk.analysed["facts"] = fx.meta
@@ -292,4 +406,5 @@ def run(chk, tier):
     from . import c11
     c11.extend_appends(chk, fx, "push-appends")
     push_plumbing(chk, fx)
+    presence_semantics(chk, fx)
     chk.undecided.append("equivalence with a reference model over arbitrary operation sequences; write/read-back of the resulting objects")
